@@ -4,6 +4,7 @@ import (
 	"context"
 	"fmt"
 	"strings"
+	"sync"
 	"time"
 
 	"go.sia.tech/core/consensus"
@@ -376,6 +377,96 @@ func poisonJobs(w *world) []job {
 		pc := &poisonCase{name: fmt.Sprintf("outline-same-id-other-height-%+d-then-honest-relay-at-%d", x.delta, x.s),
 			tags: []string{"kind:honest+byzantine", "byz:relays-honest-outline-with-other-height", regime(w, x.s), "two-step:outline-then-outline"}, w: w, s: x.s, delta: x.delta}
 		jobs = append(jobs, job{name: pc.name, quick: x.quick, run: pc.run})
+	}
+	return jobs
+}
+
+// headerBatchCase: "still syncs to the heaviest chain offered by its honest peers" when that chain
+// needs more than one header reply. A SendHeaders reply holds what the SERVING side allows (it
+// clamps the request to its own limit; the default of 10000 cannot be changed through an option,
+// but a peer configured lower is perfectly conformant): the scripted peer serves a valid chain
+// honestly, at most `batch` headers per reply with the true number of remaining headers, and never
+// announces anything. The victim must keep asking until it is on the peer's tip.
+type headerBatchCase struct {
+	name  string
+	tags  []string
+	w     *world
+	s     int // victim height
+	batch uint64
+}
+
+func (hc *headerBatchCase) run(ip string) *vh.Case {
+	c := &vh.Case{Name: hc.name, Tags: hc.tags, Nontrivial: true, Key: hc.name}
+	nt := hc.w.nt
+	main := hc.w.main
+	victim := nt.NewNode(ip + ".1")
+	victim.Load(main.Blocks[:hc.s])
+	trace := traceWork(victim)
+	startWork := netx.WorkOf(victim.CM.TipState().TotalWork)
+	view := netx.ViewOf(main)
+	replies := 0
+	var mu sync.Mutex
+	bz, err := netx.DialByz(nt, victim.Addr(), ip+".2", func(req *netx.Request) netx.Reply {
+		switch req.RPC {
+		case netx.RPCSendHeaders:
+			max := req.Max
+			if max > hc.batch {
+				max = hc.batch
+			}
+			hs, rem, ok := view.Headers(req.Index, max)
+			if !ok {
+				return netx.Reply{}
+			}
+			mu.Lock()
+			replies++
+			mu.Unlock()
+			return netx.Reply{Raw: netx.EncHeaders(hs, rem)}
+		case netx.RPCSendCheckpoint:
+			b, cs, ok := view.Checkpoint(req.Index)
+			if !ok {
+				return netx.Reply{}
+			}
+			return netx.Reply{Raw: netx.EncCheckpoint(b, cs)}
+		case netx.RPCSendV2Blocks:
+			bs, rem := view.BlocksFor(req.History, req.Max)
+			return netx.Reply{Raw: netx.EncBlocks(bs, rem)}
+		case netx.RPCShareNodes:
+			return netx.Reply{Raw: netx.EncPeers(nil)}
+		}
+		return netx.Reply{}
+	})
+	if err != nil {
+		c.Oracle("harness-connect", "scripted peer could not connect: %v", err)
+		victim.Close()
+		return c
+	}
+	defer bz.Close()
+	want := main.Tip()
+	reached := netx.WaitFor(20*time.Second, func() bool { return victim.CM.Tip() == want })
+	mu.Lock()
+	n := replies
+	mu.Unlock()
+	c.Op(fmt.Sprintf("headers in batches of %d from %d", hc.batch, hc.s), fmt.Sprintf("reached-honest-tip %v", reached))
+	if !reached {
+		c.Oracle("stalled-below-honest-chain", "an honest peer serves the valid chain up to %v, at most %d headers per reply (it answered %d header requests, each with the true number of remaining headers): after 20 s the victim is on %v, peers: %s", want, hc.batch, n, victim.CM.Tip(), peersSynced(victim))
+	}
+	for _, b := range victim.Store.Bans() {
+		c.Oracle("honest-peer-banned:header-batches", "nobody misbehaved, yet %s was reported: %s", b.Addr, b.Reason)
+		break
+	}
+	finishVictim(c, victim, trace, startWork)
+	return c
+}
+
+func headerBatchJobs(w *world) []job {
+	var jobs []job
+	for _, x := range []struct {
+		s     int
+		batch uint64
+	}{{0, 7}, {4, 3}, {12, 5}, {2, 1}} {
+		hc := &headerBatchCase{name: fmt.Sprintf("honest-headers-in-batches-of-%d-from-%d", x.batch, x.s),
+			tags: []string{"kind:honest", "headers:several-replies-needed", regime(w, x.s)}, w: w, s: x.s, batch: x.batch}
+		jobs = append(jobs, job{name: hc.name, quick: true, run: hc.run})
 	}
 	return jobs
 }
